@@ -24,8 +24,8 @@ import random
 import tempfile
 
 from speclib.c17_spec import (R, alternatives, compare, extent, file_ok, gb_feats_of, gb_location, gb_text,
-                              gff_attr_text, gff_rows_of, gff_spec_records, gff_text, item_kind, match, norm_spans, proj_feature,
-                              proj_full, select, span_kind)
+                              gff_attr_text, gff_rows_of, gff_spec_records, gff_text, item_kind, norm_spans,
+                              proj_feature, proj_full, select, span_kind)
 
 L = 12
 CLASSES = ("basic", "gff", "gb")
@@ -168,7 +168,7 @@ SET_B = [
     R("s1", "gene", "g1", [[5, 7]], "+", "user"),
     R("s1", "gene", "g1", [[5, 7]], "+", "user"),
     R("s2", "exon", "g1", [[6, 6]], "-", "user", attrs="kinase"),
-    R("s2", "gene", "e", [[7, 12]], None, "user"),
+    R("s2", "gene", "G1", [[7, 12]], None, "user"),      # differs from the queried name g1 only in case
 ]
 
 
